@@ -4,8 +4,9 @@ Property theorems only; the proofs are in Jap/Lemmas/AdaptIdem.lean.
 
 `adapt O false none t` is the adapter as `validate` / `parse_object` apply it to a value that is already in the
 configuration (no original string).  `good t`: every Union member inside `t` is `uSafe`, i.e. free of `Any`,
-`Set`, `Dict[int, _]` and of `Literal`s with non-string members; outside Unions every construct of the
-grammar is allowed (`Any`, `Set`, `Dict[int, _]`, arbitrary `Literal`s included).
+`Set`, `Dict[int, _]`, of `Literal`s with non-string members, of restricted NUMBER types and of registered types
+(restricted STRING types are allowed in Union members since session 2); outside Unions every construct of the
+grammar is allowed (`Any`, `Set`, `Dict[int, _]`, arbitrary `Literal`s, restricted and registered types included).
 -/
 import Jap.Core.Adapt
 import Jap.Core.AdaptPins
@@ -90,6 +91,33 @@ example :
       = .ok (.list [.tuple [.flt "1.0", .enum 0 "red"], .int 1, .str "x"]) ∧
     adapt O false .none t (.list [.tuple [.flt "1.0", .enum 0 "red"], .int 1, .str "x"])
       = .ok (.list [.tuple [.flt "1.0", .enum 0 "red"], .int 1, .str "x"]) := by
+  exact ⟨rfl, rfl⟩
+
+/-- restricted STRING types may be Union members, at any depth (session 2) … -/
+example : good (.union [.rnum .str 0, .int, .list (.union [.rnum .str 1, .float]), .none]) = true ∧
+    uSafe (.tuple [.rnum .str 0, .enum 0 ["a"]]) = true ∧ uSafe (.rnum .int 0) = false ∧ uSafe (.reg 0) = false := by
+  refine ⟨rfl, rfl, rfl, rfl⟩
+
+/-- … with a non-trivial instance of `C10_adapt_idem` / `C10_adapt_mono`: `Union[Hex, int]` on `'0x10'` (the
+    restricted string member refuses the text, `int` loads it; the second pass keeps `16`) -/
+example :
+    let O : Oracle := { yaml := fun s => if s = "0x10" then some (.int 16) else some (.str s), loadAny := fun s => some (.str s),
+                        bigFlt := fun _ => .none, intOf := fun _ => .none,
+                        rnumOk := fun _ v => match v with | .str s => s == "ff" | _ => false }
+    adapt O false .none (.union [.rnum .str 0, .int]) (.str "0x10") = .ok (.int 16) ∧
+    adapt O false .none (.union [.rnum .str 0, .int]) (.int 16) = .ok (.int 16) ∧
+    adapt O false .none (.union [.rnum .str 0, .int]) (.str "ff") = .ok (.str "ff") := by
+  exact ⟨rfl, rfl, rfl⟩
+
+/-- registered types stay excluded from Union members: the deserializer is an arbitrary function of the value, it may
+    refuse the text and take the number another member made of it (`Union[Decimal, int]`, `'0x10'`: `16`, then
+    `Decimal(16)`) -/
+theorem C10_idem_fails_reg_union :
+    let O : Oracle := { yaml := fun s => if s = "0x10" then some (.int 16) else some (.str s), loadAny := fun s => some (.str s),
+                        bigFlt := fun _ => .none, intOf := fun _ => .none,
+                        regDeser := fun k v => match v with | .int i => some (.obj k (toString i)) | _ => .none }
+    adapt O false .none (.union [.reg 2, .int]) (.str "0x10") = .ok (.int 16) ∧
+    adapt O false .none (.union [.reg 2, .int]) (.int 16) = .ok (.obj 2 "16") := by
   exact ⟨rfl, rfl⟩
 
 /-! ### the whole `_check_type` / `parse_object` on values (session 2)
